@@ -227,3 +227,32 @@ def as_problems(entries, write):
             files.append(write('%s%s' % (name, '' if i == 0 else '_part%d' % i), t))
         probs.append((name, files))
     return probs
+
+
+def session_family():
+    """C18: sessions in which the client hands scripts to read(script) one after the other, catches a reported error and goes
+    on: a script that declares something (a predicate with a rule, a class with a constructor and a method, a typedef / enum)
+    and then fails in a later phase, followed by a valid script that uses the declarations, and a solve(). Nothing may
+    abort, hang or touch invalid memory; (name, parts, None)"""
+    decls = {
+        'pred': ('predicate P(real x) { x >= 1.0; goal q = new Q(y: x); }\npredicate Q(real y) { y <= 10.0; }\n', 'goal g0 = new P(x: 3.0);\n'),
+        'class': ('class K { real v; K(real v) : v(v) { v >= 0.0; } predicate Do(real d) : Interval { duration >= d; } }\nK k0 = new K(2.0);\n', 'goal d0 = new k0.Do(d: 2.0);\n'),
+        'enum': ('enum Color {"red", "green"} | {"blue"};\nColor c0;\n', 'Color c1;\nc1 != c0;\n'),
+        'sv': ('class Robot : StateVariable { predicate At(real l) { duration >= 1.0; } }\nRobot r0 = new Robot();\n', 'fact a0 = new r0.At(l: 1.0);\na0.start >= 2.0;\n'),
+        'method': ('real tot;\nvoid bump(real by) { tot >= by; }\n', 'bump(3.0);\ntot <= 10.0;\n'),
+    }
+    failures = {
+        'unknown_predicate': 'goal bad = new Mispelled();\n',
+        'unknown_identifier': 'zz == 1.0;\n',
+        'unknown_type': 'Nowhere n;\n',
+        'unknown_field': 'real w; w.nofield == 1.0;\n',
+        'unknown_method': 'undeclared(1.0);\n',
+        'syntax': 'real ; ;\n',
+    }
+    out = []
+    for dn, (decl, use) in decls.items():
+        for fn, bad in failures.items():
+            out.append(('fs_%s_%s' % (dn, fn), [decl + bad, use], None))                       # declares, fails, is used afterwards
+            out.append(('fs_%s_%s_first' % (dn, fn), [bad, decl + use], None))                 # fails first
+            out.append(('fs_%s_%s_mid' % (dn, fn), [decl, bad, use, bad, use.replace('0', '5')], None))
+    return out
